@@ -38,7 +38,9 @@ TIERS = {
 }
 SPELLINGS = {'quick': ['min', 'spaced', 'lines'], 'thorough': ['min', 'spaced', 'lines']}
 
-DOC_XML = '<?xml version="1.0"?><!--c--><?pt x?><a xmlns:p="urn:p" x="1">t<b/></a>'
+DOC_XML = '<?xml version="1.0"?><!--c--><?pt x?><a xmlns:p="urn:p" x="1" xml:lang="en" xml:id="a1">t<b/></a>'
+DOC_URI = 'http://example.com/docs/doc.xml'
+N_VARIANTS = {'quick': 4, 'thorough': 6}      # concrete renderings per abstract atomic argument (signature conformance)
 PREFIXES = {
     'http://www.w3.org/2005/xpath-functions': 'fn',
     'http://www.w3.org/2001/XMLSchema': 'xs',
@@ -240,20 +242,38 @@ def type_class(st) -> str:
 # ---------------------------------------------------------------------------------------
 # binding table: abstract value -> XPath literal expression
 
+# Binding table abstract atom -> concrete lexical forms.  The FIRST form is the representative used by
+# the judgement universe; the others are the variants of the signature-conformance calls (negative,
+# zero, fractional seconds, BCE years, time zones, bounds, empty / multi-word strings ...).
 LEX = {
-    'untypedAtomic': ['a'], 'string': None, 'normalizedString': ['a b', 'c'], 'token': ['a b', 'c'],
-    'language': ['en'], 'NMTOKEN': ['a'], 'Name': ['a:b'], 'NCName': ['a', 'b'], 'ID': ['a'], 'IDREF': ['a'],
-    'ENTITY': ['a'], 'decimal': None, 'integer': None, 'nonPositiveInteger': ['-3'], 'negativeInteger': ['-3'],
-    'long': ['7'], 'int': ['7'], 'short': ['-7', '8'], 'byte': ['7'], 'nonNegativeInteger': ['7'],
-    'positiveInteger': ['7'], 'unsignedLong': ['7'], 'unsignedInt': ['3000000000'], 'unsignedShort': ['40000'],
-    'unsignedByte': ['200'], 'float': ['1.5'], 'double': None, 'boolean': None, 'duration': ['P1Y2DT3H'],
-    'yearMonthDuration': ['P1Y2M'], 'dayTimeDuration': ['P1DT2H'], 'dateTime': ['2001-02-03T04:05:06'],
-    'date': ['2001-02-03'], 'time': ['04:05:06'], 'gYearMonth': ['2001-02'], 'gYear': ['2001'],
-    'gMonthDay': ['--02-03'], 'gDay': ['---03'], 'gMonth': ['--02'], 'hexBinary': ['0fb7'],
-    'base64Binary': ['YWJj'], 'anyURI': ['http://example.com/a'], 'QName': ['xs:a'],
+    'untypedAtomic': ['a', '12', '', '2001-02-03'], 'string': None,
+    'normalizedString': ['a b', 'c', '', ' x  y '], 'token': ['a b', 'c', '', 'en-US'],
+    'language': ['en', 'de-CH', 'x-klingon'], 'NMTOKEN': ['a', '1-2', 'a:b'], 'Name': ['a:b', '_x', 'n-1'],
+    'NCName': ['a', 'b', '_x.y'], 'ID': ['a', 'a1', 'zz'], 'IDREF': ['a', 'a1', 'zz'], 'ENTITY': ['a', 'b'],
+    'decimal': None, 'integer': None,
+    'nonPositiveInteger': ['-3', '0', '-99999999999999999999'], 'negativeInteger': ['-3', '-1', '-99999999999999999999'],
+    'long': ['7', '-9223372036854775808', '0', '9223372036854775807'], 'int': ['7', '-2147483648', '0', '2147483647'],
+    'short': ['-7', '8', '0', '32767'], 'byte': ['7', '-128', '0', '127'],
+    'nonNegativeInteger': ['7', '0', '99999999999999999999'], 'positiveInteger': ['7', '1', '99999999999999999999'],
+    'unsignedLong': ['7', '0', '18446744073709551615'], 'unsignedInt': ['3000000000', '0', '7'],
+    'unsignedShort': ['40000', '0', '7'], 'unsignedByte': ['200', '0', '7'],
+    'float': ['1.5', '-2.5', '0', 'INF', 'NaN', '-0'], 'double': None, 'boolean': None,
+    'duration': ['P1Y2DT3H', '-P1Y2M3DT4H5M6.7S', 'PT0S', '-PT0.5S', '-P3DT10H30M'],
+    'yearMonthDuration': ['P1Y2M', '-P1Y2M', 'P0M', 'P13M'],
+    'dayTimeDuration': ['P1DT2H', '-P3DT10H30M', 'PT0S', '-PT0.5S', '-PT3H', 'PT0.5S'],
+    'dateTime': ['2001-02-03T04:05:06', '-0044-03-15T12:00:00Z', '1999-12-31T23:59:59.999+14:00',
+                 '2000-02-29T00:00:00-05:00'],
+    'date': ['2001-02-03', '-0044-03-15', '1999-12-31+14:00', '2000-02-29Z'],
+    'time': ['04:05:06', '23:59:59.999Z', '00:00:00-05:00', '12:30:00+05:30'],
+    'gYearMonth': ['2001-02', '-0044-03', '1999-12Z'], 'gYear': ['2001', '-0044', '1999+14:00'],
+    'gMonthDay': ['--02-03', '--02-29', '--12-31Z'], 'gDay': ['---03', '---31Z'], 'gMonth': ['--02', '--12Z'],
+    'hexBinary': ['0fb7', '', 'FF'], 'base64Binary': ['YWJj', '', 'YQ=='],
+    'anyURI': ['http://example.com/a', '', 'b/c#d', 'urn:p'], 'QName': ['xs:a', 'a', 'fn:b'],
 }
-NATIVE = {'string': ["'a'", "'b'", "'c'"], 'integer': ['1', '2', '3'], 'decimal': ['1.5', '2.5'],
-          'double': ['1.5e0', '2.5e0'], 'boolean': ['true()', 'false()']}
+NATIVE = {'string': ["'a'", "''", "'b c'", "'en'", "'a1'", "'2001-02-03'"], 'integer': ['1', '-3', '0', '2', '65'],
+          'decimal': ['1.5', '-2.5', '0.0', '100.25'],
+          'double': ['1.5e0', '-2.5e0', '0e0', "xs:double('INF')", "xs:double('NaN')", "xs:double('-0')"],
+          'boolean': ['true()', 'false()']}
 NODE_PATH = {('document', 'a'): '$d', ('element', 'a'): '$d/a', ('element', 'b'): '$d/a/b',
              ('attribute', 'x'): '$d/a/@x', ('text', ''): '$d/a/text()', ('comment', ''): '$d/comment()',
              ('pi', 'pt'): '$d/processing-instruction()', ('namespace', 'p'): '$d/a/namespace::p'}
@@ -331,12 +351,12 @@ class Env:
         import xml.etree.ElementTree as ET
         self.ep = elementpath
         self.parsers = {'2.0': XPath2Parser, '3.0': XPath30Parser, '3.1': XPath31Parser}
-        self.doc = get_node_tree(ET.ElementTree(ET.fromstring(DOC_XML)), namespaces={'p': 'urn:p'})
+        self.doc = get_node_tree(ET.ElementTree(ET.fromstring(DOC_XML)), namespaces={'p': 'urn:p'}, uri=DOC_URI)
         # comment and PI before the root element are kept by a real parser only
         from io import StringIO
         try:
             import lxml.etree as LET
-            self.doc = get_node_tree(LET.parse(StringIO(DOC_XML)), namespaces={'p': 'urn:p'})
+            self.doc = get_node_tree(LET.parse(StringIO(DOC_XML)), namespaces={'p': 'urn:p'}, uri=DOC_URI)
         except ImportError:  # pragma: no cover
             pass
         self.values: dict[str, object] = {}
@@ -619,12 +639,14 @@ def split_signature(sig: str):
 
 
 def export_signatures():
-    """parser.function_signatures of the 3.1 parser: (name, arity, parameter texts, return text)"""
+    """parser.function_signatures of EVERY parser version (redefined functions differ per version):
+    (version, name, arity, parameter texts, return text)"""
     e = env()
     out = []
-    for (qname, arity), sig in e.parsers['3.1'].function_signatures.items():
-        ps, r = split_signature(sig)
-        out.append(dict(name=qname.qname, arity=arity, ps=ps, r=r, sig=sig))
+    for ver in ('2.0', '3.0', '3.1'):
+        for (qname, arity), sig in e.parsers[ver].function_signatures.items():
+            ps, r = split_signature(sig)
+            out.append(dict(ver=ver, name=qname.qname, arity=arity, ps=ps, r=r, sig=sig))
     return out
 
 
@@ -680,6 +702,8 @@ RECURSIVE ArgTuples(_, _)
 ArgTuples(ps, n) == IF Len(ps) = 0 THEN {<<>>}
                     ELSE {<<a>> \\o rest : a \\in ArgPick(Head(ps), n), rest \\in ArgTuples(Tail(ps), n)}
 CallPlan == UNION {{<<s, args>> : args \\in ArgTuples(Sigs[s].ps, Len(Sigs[s].ps))} : s \\in 1..Len(Sigs)}
+(* every abstract argument tuple is rendered in NVariants concrete variants by the binding table *)
+NVariants == %(nvar)d
 (* no ASSUME mentions exported data: a law that fails on the implementation's tables yields a
    printed set of counterexamples (confirmed through the API, reported as violations), never an
    aborted TLC run; ASSUME is used for the laws of the pure specification only *)
@@ -809,26 +833,32 @@ def normalize_text(t: str) -> str:
 
 
 def run_calls(job):
-    """call name(args) directly and name#arity(args) dynamically; project the results"""
+    """call name(args) directly and (XPath 3.0+) name#arity(args) dynamically, with the parser version that
+    registered the signature, in a context where node functions can succeed (document with a URI, context
+    item = the root element with xml:lang / xml:id / namespaces); project the results"""
     text2idx, types, calls = job
     e = env()
     from elementpath import XPathContext
     out = []
+    ctx_item = e.doc.getroot()
     for (si, sig, args, argtexts) in calls:
         variables = {f'a{n + 1}': e.value(t) for n, t in enumerate(argtexts)}
         variables['d'] = e.doc
         arglist = ', '.join(f'$a{n + 1}' for n in range(len(argtexts)))
-        for mode, expr in (('direct', f"{sig['name']}({arglist})"),
-                           ('dynamic', f"{sig['name']}#{sig['arity']}({arglist})")):
+        modes = [('direct', f"{sig['name']}({arglist})")]
+        if sig['ver'] >= '3.0':
+            modes.append(('dynamic', f"{sig['name']}#{sig['arity']}({arglist})"))
+        for mode, expr in modes:
             def call():
-                tok = e.parsers['3.1']().parse(expr)
-                return tok.evaluate(XPathContext(root=e.doc, variables=dict(variables)))
+                tok = e.parsers[sig['ver']]().parse(expr)
+                return tok.evaluate(XPathContext(root=e.doc, item=ctx_item, variables=dict(variables),
+                                                 documents={DOC_URI: e.doc}))
             r = guarded(call)
             if r[0] == 'value':
                 pv = project_value(r[1], text2idx, types)
-                out.append((si, args, mode, expr, 'value', pv, repr(r[1])[:120]))
+                out.append((si, args, mode, expr, 'value', pv, repr(r[1])[:120], argtexts))
             else:
-                out.append((si, args, mode, expr, ':'.join(r), None, ''))
+                out.append((si, args, mode, expr, ':'.join(r), None, '', argtexts))
     return out
 
 
@@ -839,6 +869,112 @@ def result_kind(pv) -> str:
         return 'empty'
     ks = sorted({(x['k'] + ':' + x.get('t', x.get('nk', ''))).rstrip(':') for x in pv})
     return ('seq:' if len(pv) > 1 else '') + '|'.join(ks)
+
+
+# ---------------------------------------------------------------------------------------
+# histories: function items derived from one another, several judgements in ONE evaluation
+# (spec/FnItemHist.tla; every state of its graph is one expression)
+
+HIST = {'quick': dict(MaxLen=2, SameBase=True), 'thorough': dict(MaxLen=2, SameBase=False)}
+BASE_TEXT = {
+    'function(xs:string?, xs:double) as xs:string': 'substring#2',
+    'function(xs:integer, xs:integer) as xs:integer':
+        'function($a as xs:integer, $b as xs:integer) as xs:integer {$a + $b}',
+    'function(item()*, xs:integer) as item()*': 'remove#2',
+}
+HIST_ARG = {'xs:string?': "'abcde'", 'xs:double': '2e0', 'xs:integer': '1', 'item()*': "('x', 'y')"}
+DERIVS = ['self', 'first', 'second', 'both']
+
+
+def fn_sig_text(f) -> str:
+    return 'function(' + ', '.join(type_text(p) for p in f['ps']) + ') as ' + type_text(f['r'])
+
+
+def hist_expr(bases, tests, hist):
+    """one evaluation: let $f1 := .., $f2 := .. return (J1, J2, ..) and the expected outcome"""
+    used = sorted({h['b'] for h in hist})
+    lets = ', '.join(f'$f{b} := {BASE_TEXT[fn_sig_text(bases[b - 1])]}' for b in used)
+    js = []
+    for h in hist:
+        f = bases[h['b'] - 1]
+        a1, a2 = (HIST_ARG[type_text(p)] for p in f['ps'])
+        item = {'self': f'$f{h["b"]}', 'first': f'$f{h["b"]}(?, {a2})', 'second': f'$f{h["b"]}({a1}, ?)',
+                'both': f'$f{h["b"]}(?, ?)'}[DERIVS[h['d'] - 1]]
+        t = type_text({'it': tests[h['t'] - 1], 'occ': '1'})
+        js.append(f'{item} instance of {t}' if h['op'] == 'instance' else f'count({item} treat as {t})')
+    expected = ['1' if h['out'] == 'same' else h['out'] for h in hist]
+    if expected[-1] == 'XPDY0050':
+        expected = 'err:XPDY0050'
+    else:
+        expected = ','.join(expected)
+    return f'let {lets} return ({", ".join(js)})', expected
+
+
+def eval_history(expr: str, parser: str) -> str:
+    e = env()
+    out = guarded(lambda: e.ep.select(e.doc, expr, parser=e.parsers[parser]))
+    if out[0] == 'value':
+        r = out[1] if isinstance(out[1], list) else [out[1]]
+        return ','.join('true' if x is True else 'false' if x is False else repr(x) for x in r)
+    if out[0] == 'err':
+        return 'err:' + out[1]
+    return ':'.join(out)
+
+
+def hist_worker(job):
+    parsers, cases = job
+    fails = []
+    n = 0
+    for expr, expected, feat in cases:
+        for parser in parsers:
+            obs = eval_history(expr, parser)
+            n += 1
+            if obs != expected:
+                fails.append((dict(feat, parser=parser, expected=expected, observed=obs),
+                              dict(kind='history', expr=expr, parser=parser), expected, obs))
+    return n, fails
+
+
+def run_histories(chk, tier: str, procs: int) -> None:
+    wd = os.path.join(chk.scratch, 'hist')
+    dot = os.path.join(wd, 'g.dot')
+    cfg = tla.cfg_text(dict(TIERS[tier], MaxDepth=1, **HIST[tier]), spec='HSpec', invariants=['HLaws'])
+    r = tla.require_ok(tla.run_tlc('FnItemHist', cfg, wd, dump_dot=dot, workers=8), 'FnItemHist', min_distinct=100)
+    chk.model(f'FnItemHist/{tier}', r)
+    bases = printed(r.output, 'bases')[0]
+    tests = printed(r.output, 'tests')[0]
+    g = tla.load_dot(dot)
+    os.remove(dot)
+    cases = []
+    n_mixed = 0
+    for st in g.states.values():
+        hist = st['hist']
+        if not hist:
+            continue
+        expr, expected = hist_expr(bases, tests, hist)
+        derivs = '>'.join(DERIVS[h['d'] - 1] for h in hist)
+        feat = dict(op='history', ops='>'.join(h['op'] for h in hist), derivs=derivs,
+                    base=BASE_TEXT[fn_sig_text(bases[hist[0]['b'] - 1])].split('(')[0],
+                    same_test=len({h['t'] for h in hist}) == 1, length=len(hist),
+                    first_arg_fixed=any(DERIVS[h['d'] - 1] == 'second' for h in hist))
+        cases.append((expr, expected, feat))
+        if len(hist) > 1 and len({(h['b'], h['d']) for h in hist}) > 1 and len({h['t'] for h in hist}) == 1:
+            n_mixed += 1        # different items derived from one base judged against the same test
+    if not n_mixed:
+        raise tla.MachineryError('FnItemHist: no history judges two derived items against one test (vacuous)')
+    parsers = ['3.1'] if tier == 'quick' else ['3.0', '3.1']
+    results = core.pool_map(hist_worker, [(parsers, c) for c in core.chunked(cases, 4 * procs)], procs=procs)
+    for n, fails in results:
+        chk.add('evaluations', n)
+        for feat, case, exp, obs in fails:
+            chk.fail(feat, case, exp, obs, what=case['expr'])
+    chk.add('transitions', len(g.edges))
+    chk.add('traces_validated_against_impl', len(cases))
+    chk.add('distinct_nontrivial', n_mixed)
+    chk.coverage['histories'] = dict(expressions=len(cases), two_items_of_one_base_against_one_test=n_mixed)
+    chk.sample(dict(history=cases[len(cases) // 2][0], expected=cases[len(cases) // 2][1]))
+    print(f'  histories: states={r.distinct} expressions={len(cases)} (derived items against one test: {n_mixed}) '
+          f'tlc={r.wall_s:.1f}s', flush=True)
 
 
 # ---------------------------------------------------------------------------------------
@@ -872,6 +1008,8 @@ def replay(rec: dict) -> int:
         obs = confirm_law(case)
     elif kind == 'call':
         obs = replay_call(case)
+    elif kind == 'history':
+        obs = eval_history(case['expr'], case['parser'])
     else:
         raise tla.MachineryError(f'unknown replay kind {kind}')
     print('observed :', obs)
@@ -907,7 +1045,7 @@ def replay_call(case: dict) -> str:
     r = tla.require_ok(tla.run_tlc('SeqTypes', cfg, wd, workers=2), 'SeqTypes')
     types = printed(r.output, 'types')[0]
     text2idx = {type_text(t): i + 1 for i, t in enumerate(types)}
-    sig = dict(name=case['name'], arity=case['arity'])
+    sig = dict(name=case['name'], arity=case['arity'], ver=case.get('ver', '3.1'))
     res = run_calls((text2idx, types, [(0, sig, (), case['argtexts'])]))
     row = [x for x in res if x[2] == case['mode']][0]
     if row[4] != 'value':
@@ -1015,7 +1153,8 @@ def run(chk: core.Check) -> None:
                                                                    text2idx[s['r']]) for s in sigs) + '>>'
     deft = [i + 1 for i, t in enumerate(texts) if t is not None]
     mod = IMPL_MODULE % dict(deft=tla_set(deft), sup=tla_rows(sup, len(types)), match=tla_rows(match, len(values)),
-                             matcherr=tla_rows(merr, len(values)), sigs=sigs_tla, k=2 if tier == 'quick' else 3)
+                             matcherr=tla_rows(merr, len(values)), sigs=sigs_tla, k=2 if tier == 'quick' else 3,
+                             nvar=N_VARIANTS[tier])
     wd2 = os.path.join(chk.scratch, 'impl')
     r2 = tlc_constants('Impl_C18', mod, wd2, tier, 'ImplInit', 'ImplNext', 'Impl_C18 (exported relations)', snapshot)
     chk.model(f'Impl_C18/{tier}', r2)
@@ -1075,22 +1214,36 @@ def run(chk: core.Check) -> None:
     print(f'  binding C: impl pairs sub={sizes[1]} (spec {sizes[2]}) instance={sizes[3]} (spec {sizes[4]}) '
           f'counterexamples={n_law} tlc={r2.wall_s:.1f}s', flush=True)
 
-    # ---- 4. signature conformance --------------------------------------------------------
+    # ---- 4. signature conformance (every parser version's own table) ----------------------
     plan = sorted(printed(r2.output, 'callplan')[0])
-    calls = [(si, sigs[si - 1], args, [vtexts[a - 1] for a in args]) for si, args in plan]
+    nvar = N_VARIANTS[tier]
+    calls, seen_calls = [], set()
+    values_by_idx = values
+    for si, args in plan:
+        for k in range(nvar):
+            # variant k, rotated by the argument position so that the arguments of one call differ
+            argtexts = tuple(value_text(values_by_idx[a - 1], k + n) for n, a in enumerate(args))
+            if (si, argtexts) in seen_calls:
+                continue
+            seen_calls.add((si, argtexts))
+            calls.append((si, sigs[si - 1], args, list(argtexts)))
     res = []
-    for ch in core.pool_map(run_calls, [(text2idx, types, c) for c in core.chunked(calls, 2 * procs)], procs=procs):
+    for ch in core.pool_map(run_calls, [(text2idx, types, c) for c in core.chunked(calls, 4 * procs)], procs=procs):
         res += ch
     chk.add('evaluations', len(res))
     outcomes: dict[str, int] = {}
     obs_rows, obs_key = [], {}
-    for si, args, mode, expr, outcome, pv, rep in res:
+    cases = []
+    ok_calls = {(s['ver'], s['name'], s['arity']): 0 for s in sigs}
+    n_escaped = 0
+    for si, args, mode, expr, outcome, pv, rep, argtexts in res:
         cls = outcome if outcome == 'value' else outcome.split(':')[0]
         outcomes[cls] = outcomes.get(cls, 0) + 1
         sig = sigs[si - 1]
-        case = dict(kind='call', name=sig['name'], arity=sig['arity'], mode=mode, expr=expr, tier=tier,
-                    argtexts=[vtexts[a - 1] for a in args], declared=sig['r'])
+        case = dict(kind='call', ver=sig['ver'], name=sig['name'], arity=sig['arity'], mode=mode, expr=expr, tier=tier,
+                    argtexts=list(argtexts), declared=sig['r'])
         if outcome == 'value':
+            ok_calls[(sig['ver'], sig['name'], sig['arity'])] += 1
             if pv is None:
                 outcomes['unprojectable'] = outcomes.get('unprojectable', 0) + 1
                 continue
@@ -1101,14 +1254,19 @@ def run(chk: core.Check) -> None:
             case['obs'] = obs_key[key]
             case['pv'] = pv
             case['rep'] = rep
-            outcomes.setdefault('_cases', [])
+            cases.append(case)
         elif cls in ('escaped', 'hang'):
             # C03 territory; recorded, not judged here (the property exempts calls that raise a coded error only)
-            chk.note(f'call {expr} with {case["argtexts"]}: {outcome}') if outcomes[cls] <= 5 else None
-        if outcome == 'value':
-            outcomes['_cases'].append(case)
-    cases = outcomes.pop('_cases', [])
+            n_escaped += 1
+            if n_escaped <= 5:
+                chk.note(f'call {expr} ({sig["ver"]}) with {case["argtexts"]}: {outcome}')
     chk.coverage['call_outcomes'] = outcomes
+    never = sorted(f'{n}#{a} ({v})' for (v, n, a), c in ok_calls.items() if c == 0)
+    chk.coverage['functions_called'] = len(ok_calls)
+    chk.coverage['functions_with_successful_call'] = len(ok_calls) - len(never)
+    chk.coverage['functions_without_successful_call'] = never
+    chk.coverage['successful_calls_per_function_min_median_max'] = (
+        lambda xs: [xs[0], xs[len(xs) // 2], xs[-1]])(sorted(ok_calls.values()))
     if not obs_rows:
         raise tla.MachineryError('no function call returned a value: conformance check is vacuous')
     obs = '<<' + ',\n  '.join('[r |-> %d, res |-> %s]' % k for k in obs_rows) + '>>'
@@ -1121,17 +1279,25 @@ def run(chk: core.Check) -> None:
     for case in cases:
         if case['obs'] in bad:
             pv = case.pop('pv')
-            chk.fail(dict(op='call', fn=case['name'], arity=case['arity'], mode=case['mode'], declared=case['declared'],
-                          result=result_kind(pv)), case, 'matches', 'mismatch:' + result_kind(pv),
-                     what=f"{case['expr']} with {case['argtexts']} returned {case['rep']}, declared {case['declared']}")
+            chk.fail(dict(op='call', fn=case['name'], arity=case['arity'], mode=case['mode'], parser=case['ver'],
+                          declared=case['declared'], result=result_kind(pv)), case, 'matches',
+                     'mismatch:' + result_kind(pv),
+                     what=f"{case['expr']} ({case['ver']}) with {case['argtexts']} returned {case['rep']}, "
+                          f"declared {case['declared']}")
     chk.add('traces_validated_against_impl', len(cases))
     chk.sample(dict(call=cases[0]['expr'], args=cases[0]['argtexts'], declared=cases[0]['declared'], result=cases[0]['rep']))
-    print(f'  conformance: signatures={len(sigs)}/{len(sigs_all)} calls={len(res)} values={len(cases)} '
-          f'distinct results={len(obs_rows)} mismatching={len(bad)} tlc={r3.wall_s:.1f}s', flush=True)
+    print(f'  conformance: signatures={len(sigs)}/{len(sigs_all)} (2.0+3.0+3.1 tables) calls={len(res)} values={len(cases)} '
+          f'functions without a successful call={len(never)} distinct results={len(obs_rows)} mismatching={len(bad)} '
+          f'tlc={r3.wall_s:.1f}s', flush=True)
+
+    # ---- 5. histories of judgements on derived function items ---------------------------
+    run_histories(chk, tier, procs)
     chk.coverage['exhaustive'] = True
     chk.coverage['rule'] = (
         'every edge of the TLC graph of SeqTypes (value x sequence type x {instance of, treat as}, chains of 2) is one '
         'case, replayed in several type spellings / operand spellings / parsers / APIs; every ordered pair of types and '
         'every (value, type) of the universe is exported for the laws; every exported signature inside the universe is '
-        'called with TLC-chosen arguments.  distinct_nontrivial = distinct (operand, type, operator) with a non-empty '
+        'called with TLC-chosen arguments (all parser versions, several concrete variants per argument); every state of '
+        'FnItemHist (judgements on a function item and its partial applications within one evaluation) is one expression.  '
+        'distinct_nontrivial = distinct (operand, type, operator) with a non-empty '
         'operand and an item type other than item()/empty-sequence()')
